@@ -41,6 +41,7 @@ type HarnessResult struct {
 	VisibleOps          int
 	Solver              smt.Stats
 	UnknownKept         int
+	ModelHits           int
 	Wall                time.Duration
 	Truncated           bool
 	Observations        map[string]int
@@ -63,6 +64,7 @@ type Explorer struct {
 	Workers        int
 	SolverKind     string
 	QueryTimeoutMs int
+	dumpN          int
 }
 
 func (e *Explorer) push(p []Decision) {
@@ -78,6 +80,12 @@ func (e *Explorer) noteUnknown(kind, msg string) {
 	if msg != "" && len(e.Res.Undischarged) < 20 && strings.Contains(msg, "error") {
 		e.Res.Undischarged = append(e.Res.Undischarged, "solver: "+msg)
 	}
+	e.mu.Unlock()
+}
+
+func (e *Explorer) noteModelHit() {
+	e.mu.Lock()
+	e.Res.ModelHits++
 	e.mu.Unlock()
 }
 
@@ -441,6 +449,10 @@ func (m *Machine) assertCond(cond *smt.Term, msg string, ins ssa.Instruction) {
 		m.Res.Discharged++
 		return
 	case smt.Unknown:
+		if d := os.Getenv("SV_DUMP_UNKNOWN"); d != "" {
+			m.Ex.dumpN++
+			os.WriteFile(fmt.Sprintf("%s/unknown-%s-%d.smt2", d, m.Cfg.Name, m.Ex.dumpN), []byte(m.Sol.Script(neg, "z3")), 0o644)
+		}
 		m.Res.Undischarged = append(m.Res.Undischarged, fmt.Sprintf("assert %q at %s: solver unknown (%s)", msg, m.pos(ins), m.Sol.LastErr))
 		m.assume(cond)
 		return
